@@ -52,7 +52,10 @@ var delims = []delim{
 	{"[→:]", "regex", regexp.MustCompile("[→:]")},
 }
 
-var lineAlpha = []rune{'a', 'b', 'A', 'é', '日', ' ', ' ', '\t', ',', ',', ';', ':', '→', 'x'}
+var lineAlpha = []rune{'a', 'b', 'A', 'é', '日', ' ', ' ', '\t', ',', ',', ';', ':', '→', 'x', ' ', ',',
+	// characters whose UTF-8 encoding ends in a byte that is white space in Latin-1 (0x85, 0xA0), and the
+	// ASCII white space that is not an AWK separator here
+	'Å', 'à', 'ą', 'Š', '\u00a0', '\f', '\v', '\r'}
 
 func randLine(rng *rand.Rand, n int) string {
 	rs := make([]rune, n)
